@@ -9,7 +9,7 @@ add("C03", "exploration", "property-based testing of SLG enumeration streams aga
     "Recorded (answer, has_next) streams of solve_multiple checked for soundness, duplicates, completeness inside the bounded universe and flag accuracy under take-all/stop-after-k policies.",
     "Completeness only inside the bounded universe; stops at first Floundered item.", "DESIGN.md 2/C03")
 add("C04", "exploration", "differential testing SLG vs recursive solver on generated programs",
-    "Each generated goal solved by both solvers; the property's compatibility relation is the oracle (no reference semantics needed).",
+    "Each generated goal solved by both solvers; the property's compatibility relation is the oracle (no reference semantics needed). Programs from the Horn / auto / environment / associated-type / built-in generators, plus generated goals with const, lifetime and int/float unknowns over a fixed program compared at the text level.",
     "Programs are only lowered (not coherence/WF-checked), as the property states; lifetimes erased before comparing substitutions.", "DESIGN.md 2/C04")
 add("C09", "exploration", "generated-input search for non-termination/panics under a deterministic work budget (cfg hook counter)",
     "Generated growing/cyclic programs, all goal forms, default and reduced limits, solve and solve_multiple: every call must return without panic within 10x the budget that 3x covers the largest honest solve. Cannot prove termination; refutes it within the budget.",
@@ -80,8 +80,8 @@ add("C22", "exploration", "round-trip property-based testing with a grammar-dire
 add("C23", "exploration", "differential property-based testing: answers on the original program vs the program printed by the recording database wrapper",
     "Programs of the C01/C05/C06/C07/C08 fragments with goal histories solved through LoggingRustIrDatabase by both solvers; the logged text must lower, the goals must lower against it, and a fresh solver on it must give identical answers; the wrapper must not change answers.",
     "Goals naming items the solver never queried are a known finding (stubbed, search continues); SLG order-dependent differences classified with the C13 classes.", "DESIGN.md 2/C23")
-add("C24", "exploration", "fuzzing of parser + lowering with byte, token and mutation generators (crash oracle)",
-    "Arbitrary bytes, token soup over the grammar's vocabulary, mutated valid programs/goals from seeds and /repo/tests, planted semantic errors: Ok or Err, never a panic or process crash.",
+add("C24", "exploration", "fuzzing of parser + lowering with byte, token and mutation generators (crash oracle); thorough tier adds a coverage-guided libFuzzer stage on the same entry function",
+    "Arbitrary bytes, token soup over the grammar's vocabulary, mutated valid programs/goals from seeds and /repo/tests, planted semantic errors: Ok or Err, never a panic or process crash. Thorough: then cargo-fuzz/libFuzzer (8 workers, seed corpus cut from /repo/tests, token dictionary); a crash counts once it reproduces through `check C24 --replay`.",
     "Stack exhaustion on pathological nesting not judged.", "DESIGN.md 2/C24")
 add("C29", "exploration", "property-based testing of Subtype goals against an independent variance walk and outlives entailment",
     "Generated skeleton types instantiated with lifetimes (static, placeholders, unknowns), optional structure mutation; the solvers' constraints must be equivalent to the variance walk's requirements under reflexivity + transitivity.",
